@@ -120,6 +120,60 @@ func c01GenCheck(c C01GenCase, rec *evid.Rec) error {
 	if cv, err := nodes.Read(nb.Build()); err != nil || !val.Equal(cv, tview, val.Ordered) {
 		return fmt.Errorf("%s: Copy differs: %s (err %v)", what, val.Diff(cv, tview), err)
 	}
+	// finished nodes of the generated types themselves assigned with AssignNode (the generated assemblers take
+	// a shortcut for "a node of my own type"): at the root, and for a typed map also entry by entry
+	rn1 := n1.(interface{ Representation() datamodel.Node }).Representation()
+	for level, src := range []datamodel.Node{n1, rn1} {
+		np := []datamodel.NodePrototype{tp, rp}[level]
+		b := np.NewBuilder()
+		if err := evid.Guard("AssignNode of a node of the same generated type", func() error { return b.AssignNode(src) }); err != nil {
+			return fmt.Errorf("%s: AssignNode of a finished node of the same type at the root (level %d) failed: %w", what, level, err)
+		}
+		if err := typedx.CheckViews(b.Build(), tview, rview, fmt.Sprintf("%s: assigned as a whole from a finished node of the same type (level %d), but", what, level)); err != nil {
+			return err
+		}
+		if c.Kind != "map" {
+			continue
+		}
+		b = np.NewBuilder()
+		err := evid.Guard("AssignNode of own-type values into a typed map", func() error {
+			ma, err := b.BeginMap(int64(len(tview.Ents)))
+			if err != nil {
+				return err
+			}
+			for i, e := range tview.Ents {
+				v, err := src.LookupByString(e.K)
+				if err != nil {
+					return err
+				}
+				var va datamodel.NodeAssembler
+				if (i+len(c.Prog))%2 == 0 {
+					if va, err = ma.AssembleEntry(e.K); err != nil {
+						return err
+					}
+				} else {
+					if err := ma.AssembleKey().AssignString(e.K); err != nil {
+						return err
+					}
+					va = ma.AssembleValue()
+				}
+				if err := va.AssignNode(v); err != nil {
+					return err
+				}
+			}
+			return ma.Finish()
+		})
+		if err != nil {
+			return fmt.Errorf("%s: a typed map assembled from finished values of its own value type (level %d) failed: %w", what, level, err)
+		}
+		if err := typedx.CheckViews(b.Build(), tview, rview, fmt.Sprintf("%s: assembled from finished values of its own value type (level %d), but", what, level)); err != nil {
+			return err
+		}
+		// and the source is what it was
+		if err := typedx.CheckViews(n1, tview, rview, what+": after its values were assigned elsewhere"); err != nil {
+			return err
+		}
+	}
 	injected := false
 	if c.Kind == "map" && c.Dup > 0 && len(tview.Ents) >= 2 {
 		// a repeated key through each route must be rejected with a repeated-key error and leave no trace
